@@ -433,6 +433,12 @@ def derived_responses(data):
     kids = [c for c in item[2] if c[0] != T.RESPONSE_PAYLOAD.value]
     yield 'success-no-payload', msg([(item[0], item[1], kids)])
     # undecodable bytes
+    for node in ttlv.index(data):
+        # a structure (payload, key block, attribute, ...) whose contents are not items, all lengths
+        # around it consistent: nothing can decode it
+        if node['type'] == ttlv.STRUCTURE and node['length'] >= 8 and len(node['path']) >= 3:
+            yield 'garbage-content:%06x' % node['tag'], \
+                data[:node['value_start']] + b'\xff' * node['length'] + data[node['value_end']:]
     yield 'garbage', data[:8] + b'\xff' * (len(data) - 8)
     yield 'bad-inner-length', data[:20] + b'\x7f' + data[21:]
     yield 'request-tag', b'\x42\x00\x78' + data[3:]
